@@ -1082,6 +1082,18 @@ func siC03(r *siReport) {
 			r.ok(c.name)
 		}
 	}
+	if r.id == "C02" {
+		// the class definition carries the registered name also when the type is first met by value inside an interface
+		v := []interface{}{ZPtrNamed{3}}
+		bs, err := ToBytes(v, NameMapFrom(v))
+		if err != nil {
+			r.fail("custom-name-on-the-wire", err.Error())
+		} else if !bytes.Contains(bs, []byte("com.zoo.PtrNamed")) {
+			r.fail("custom-name-on-the-wire", fmt.Sprintf("% x", bs))
+		} else {
+			r.ok("custom-name-on-the-wire")
+		}
+	}
 	r.done("34 hand-written alternative encodings from the grammar (full-width/compact scalars, chunk splits, all four binary forms, variable/fixed/compact lists, variable-length lists with null elements and with elements that need conversion, type back-reference, long-form instance, class definitions away from their first instance)")
 }
 
@@ -1674,6 +1686,16 @@ func siC16(r *siReport) {
 			r.ok(n + "/TypeMapOf")
 		case <-time.After(30 * time.Second):
 			r.fail(n+"/TypeMapOf", "did not terminate")
+		}
+	}
+	// a custom name declared on the pointer type is found wherever the value is met: behind a pointer, by value in a
+	// struct, by value inside an interface (not addressable)
+	for name, w := range map[string]interface{}{"top-level-by-value": ZPtrNamed{1}, "in-interface-slice": []interface{}{ZPtrNamed{2}}, "map-value": map[string]ZPtrNamed{"k": {3}}, "behind-pointer": &ZPtrNamed{4}} {
+		_, nm := ExtractTypeNameMap(w)
+		if nm["ZPtrNamed"] != "com.zoo.PtrNamed" {
+			r.fail("pointer-receiver-name/"+name, fmt.Sprintf("name map gives %q", nm["ZPtrNamed"]))
+		} else {
+			r.ok("pointer-receiver-name/" + name)
 		}
 	}
 	// named list, map and pointer types that contain themselves (no struct in between)
